@@ -4,6 +4,7 @@ from __future__ import annotations
 
 import ast
 import builtins as _b
+import functools
 import hashlib
 import importlib
 import os
@@ -398,6 +399,9 @@ def _regen_struct_aliases(m):
             n += 1
         elif isinstance(v, types.BuiltinMethodType) and isinstance(getattr(v, "__self__", None), _struct.Struct):
             m.__dict__[k] = getattr(SymStruct(v.__self__.format), v.__name__)
+            n += 1
+        elif isinstance(v, functools.partial) and isinstance(getattr(v.func, "__self__", None), _struct.Struct):
+            m.__dict__[k] = functools.partial(getattr(SymStruct(v.func.__self__.format), v.func.__name__), *v.args, **v.keywords)
             n += 1
         elif v is _struct:
             m.__dict__[k] = StructModuleShim
